@@ -87,6 +87,8 @@ def check_case(rng, r, stats):
     base, err0 = fit_sig(ds, cfg)
     sig0 = partition_sig(base, ds["X"]) if base is not None else None
     kinds = rng.sample(KINDS, 3)
+    if ds.get("no_affine"):
+        kinds = [k for k in kinds if k != "affine"] or ["permute"]
     if ds["kinds"] == ["cat-tied"]:
         kinds = ["permute", "permute", "rename"]
     for kind in kinds:
